@@ -104,7 +104,7 @@ META = {
              "partial update or atomic error paths (second model line, pf = 0)",
     "pass10": "det/affrow (4 corpus + 30 / 400): an LTV system written as an NLS, rows Σ a_ij(t) x_j + Σ b_ij(t) u_j + c_i(t) (model Fn.affRow): "
               "pypose's A, B, c1 at three reference points on one object against the coefficient trees evaluated by mpmath at t* and against "
-              "the model's linearize of Fn.affRow (driver op c15.affrow; theorems nls_ltv_jacobians, nls_ltv_constant, nls_ltv_exact)",
+              "the model's linearize of Fn.affRow (driver op c15.affrow; theorems nls_ltv_jacobians, nls_ltv_constant, nls_ltv_exact, nls_ltv_c1, nls_ltv_c2)",
     "partial": ["IEEE rounding is not modelled: the float code is compared with the exact model at 64·eps·(sum of "
                 "absolute term magnitudes)",
                 "the explicit second-order constant (Fn.bnd, nls_second_order_explicit) is an upper bound, not the least constant",
